@@ -18,6 +18,7 @@ import (
 	"github.com/KevoDB/kevo/pkg/memtable"
 	"github.com/KevoDB/kevo/pkg/sstable"
 	"github.com/KevoDB/kevo/pkg/stats"
+	"github.com/KevoDB/kevo/pkg/verifhook"
 	"github.com/KevoDB/kevo/pkg/wal"
 )
 
@@ -168,9 +169,12 @@ func (m *Manager) Put(key, value []byte) error {
 			return err // Return ErrWALRotating for retry handling
 		}
 
+		verifhook.At1("sm.put.logged", seqNum)
+
 		// Add to MemTable
 		m.memTablePool.Put(key, value, seqNum)
 		m.lastSeqNum = seqNum
+		verifhook.At1("sm.put.applied", seqNum)
 
 		// Update memtable size estimate
 		m.stats.TrackMemTableSize(uint64(m.memTablePool.TotalSize()))
@@ -265,9 +269,12 @@ func (m *Manager) Delete(key []byte) error {
 			return err // Return ErrWALRotating for retry handling
 		}
 
+		verifhook.At1("sm.del.logged", seqNum)
+
 		// Add deletion marker to MemTable
 		m.memTablePool.Delete(key, seqNum)
 		m.lastSeqNum = seqNum
+		verifhook.At1("sm.del.applied", seqNum)
 
 		// Update memtable size estimate
 		m.stats.TrackMemTableSize(uint64(m.memTablePool.TotalSize()))
@@ -383,8 +390,11 @@ func (m *Manager) ApplyBatch(entries []*wal.Entry) error {
 			return err // Return ErrWALRotating for retry handling
 		}
 
+		verifhook.At2("sm.batch.logged", startSeqNum, uint64(len(entries)))
+
 		// Apply each entry to the MemTable
 		for i, entry := range entries {
+			verifhook.At2("sm.batch.entry", startSeqNum, uint64(i))
 			seqNum := startSeqNum + uint64(i)
 
 			switch entry.Type {
@@ -396,6 +406,8 @@ func (m *Manager) ApplyBatch(entries []*wal.Entry) error {
 
 			m.lastSeqNum = seqNum
 		}
+
+		verifhook.At2("sm.batch.applied", m.lastSeqNum, uint64(len(entries)))
 
 		// Update memtable size
 		m.stats.TrackMemTableSize(uint64(m.memTablePool.TotalSize()))
@@ -419,6 +431,9 @@ func (m *Manager) ApplyBatch(entries []*wal.Entry) error {
 func (m *Manager) FlushMemTables() error {
 	m.flushMu.Lock()
 	defer m.flushMu.Unlock()
+
+	verifhook.At1("sm.flush.begin", uint64(len(m.immutableMTs)))
+	defer verifhook.At("sm.flush.end")
 
 	// Track operation
 	m.stats.TrackOperation(stats.OpFlush)
@@ -549,11 +564,14 @@ func (m *Manager) rotateWAL() error {
 		m.rotating.Store(false)
 	}()
 
+	verifhook.At("sm.rotate.begin")
+
 	// Mark old WAL as rotating before creating new one
 	currentWAL := m.getWAL()
 	if currentWAL != nil {
 		currentWAL.SetRotating()
 	}
+	verifhook.At("sm.rotate.marked")
 
 	// Create a new WAL first before closing the old one
 	newWAL, err := wal.NewWAL(m.cfg, m.walDir)
@@ -561,11 +579,15 @@ func (m *Manager) rotateWAL() error {
 		return fmt.Errorf("failed to create new WAL: %w", err)
 	}
 
+	verifhook.At("sm.rotate.created")
+
 	// Store the old WAL for proper closure
 	oldWAL := m.wal
 
 	// Atomically update the WAL reference using atomic pointer operations
 	atomic.StorePointer((*unsafe.Pointer)(unsafe.Pointer(&m.wal)), unsafe.Pointer(newWAL))
+
+	verifhook.At("sm.rotate.swapped")
 
 	// Now close the old WAL after the new one is in place
 	if oldWAL != nil {
@@ -576,6 +598,7 @@ func (m *Manager) rotateWAL() error {
 			fmt.Printf("Warning: error closing old WAL: %v\n", err)
 		}
 	}
+	verifhook.At("sm.rotate.closed")
 
 	return nil
 }
@@ -612,6 +635,8 @@ func (m *Manager) Close() error {
 		return nil // Already closed
 	}
 
+	verifhook.At("sm.close.pre")
+
 	// Close the WAL using atomic access
 	currentWAL := m.getWAL()
 	if currentWAL != nil {
@@ -626,6 +651,7 @@ func (m *Manager) Close() error {
 			return fmt.Errorf("failed to close SSTable: %w", err)
 		}
 	}
+	verifhook.At("sm.close.done")
 
 	return nil
 }
@@ -637,6 +663,7 @@ func (m *Manager) scheduleFlush() error {
 
 	// Add to our list of immutable tables to track
 	m.immutableMTs = append(m.immutableMTs, immutable)
+	verifhook.At1("sm.switch", uint64(len(m.immutableMTs)))
 
 	// Signal background flush
 	select {
@@ -667,6 +694,8 @@ func (m *Manager) flushMemTable(mem *memtable.MemTable) error {
 	timestamp := time.Now().UnixNano()
 	filename := fmt.Sprintf(sstableFilenameFormat, 0, fileNum, timestamp)
 	sstPath := filepath.Join(m.sstableDir, filename)
+
+	verifhook.At1("sm.flush.table.pre", fileNum)
 
 	// Create a new SSTable writer
 	writer, err := sstable.NewWriter(sstPath)
@@ -764,6 +793,8 @@ func (m *Manager) flushMemTable(mem *memtable.MemTable) error {
 		return fmt.Errorf("failed to finish SSTable: %w", err)
 	}
 
+	verifhook.At1("sm.flush.table.renamed", fileNum)
+
 	// Track bytes written to SSTable
 	m.stats.TrackBytes(true, bytesWritten)
 
@@ -781,6 +812,7 @@ func (m *Manager) flushMemTable(mem *memtable.MemTable) error {
 	// Add the SSTable to the list
 	m.mu.Lock()
 	m.sstables = append(m.sstables, reader)
+	verifhook.At2("sm.flush.table.published", fileNum, uint64(len(m.sstables)))
 	m.mu.Unlock()
 
 	return nil
@@ -865,6 +897,7 @@ func (m *Manager) recoverFromWAL() error {
 	}
 
 	filesRecovered := uint64(len(walFiles))
+	verifhook.At1("sm.recover.begin", filesRecovered)
 
 	// Get recovery options
 	recoveryOpts := memtable.DefaultRecoveryOptions(m.cfg)
@@ -874,6 +907,8 @@ func (m *Manager) recoverFromWAL() error {
 	if err != nil {
 		// If recovery fails, let's try cleaning up WAL files
 		m.stats.TrackError("wal_recovery_error")
+
+		verifhook.At("sm.recover.backup")
 
 		// Create a backup directory
 		backupDir := filepath.Join(m.walDir, "backup_"+time.Now().Format("20060102_150405"))
@@ -943,6 +978,8 @@ func (m *Manager) recoverFromWAL() error {
 			m.immutableMTs = append(m.immutableMTs, memTable)
 		}
 	}
+
+	verifhook.At2("sm.recover.end", maxSeqNum, uint64(len(memTables)))
 
 	// Record recovery stats
 	m.stats.FinishRecovery(startTime, filesRecovered, entriesRecovered, corruptedEntries)
